@@ -11,10 +11,17 @@
         [reduce (valid values of the message ++ what it held)];
       - a replica answers a fingerprint that equals its own with silence (second session);
       - the two sides' sent/received counters mirror each other after any complete session.
-    PARTIAL: that the session always completes within 2(|A|+|B|)+4 messages (termination
-    measure) is not proved here; it is exercised by the correspondence runs (message bound and
-    silent second session on every generated pair; a session that does not end is reported). *)
-From ID Require Import Base.Bytes Model.Entry Model.Ranger Model.Put Proofs.RangerFacts Proofs.ConvergeFacts Proofs.SplitFacts Proofs.SessionConverge.
+    And for the split factor the crate uses (2: [SyncConfig] is crate-private, only its default
+    is ever constructed), every maximal set size: the session terminates within |A|+|B|+3
+    processing steps (every reply ranks strictly below the message it answers, a fingerprint part
+    ranking by the number of entries of the union inside its range) and leaves both sides with
+    the join — the full statement ([C01_session_total]).
+    PARTIAL for split factors > 2 only: termination is not proved there (a range whose first
+    local element sits exactly at the range start and holds fewer elements than the split factor
+    produces the whole-ring range (x, x) as its first sub-range, so the count measure does not
+    decrease; exhaustive small-scope evaluation of the model and the correspondence runs with
+    split factors 3..5 show termination, a proof would need a different measure). *)
+From ID Require Import Base.Bytes Model.Entry Model.Ranger Model.Put Proofs.RangerFacts Proofs.ConvergeFacts Proofs.SplitFacts Proofs.SessionConverge Proofs.TerminateFacts.
 
 Theorem C01_step_content_partial : forall mss k status_of v S m,
   reduced S -> consistent (valid_values v (message_values m) ++ S) ->
@@ -53,6 +60,17 @@ Theorem C01_session_reaches_join : forall mss k v A B fuel A' B' tr,
   ssorted A' /\ ssorted B'.
 Proof. exact list_session_converges. Qed.
 
+(** the full statement for split factor 2 (the crate's), any maximal set size *)
+Theorem C01_session_total : forall mss v A B,
+  ssorted A -> ssorted B -> reduced A -> reduced B -> consistent (A ++ B) ->
+  (forall e, In e (A ++ B) -> v e MISSING = true) ->
+  exists A' B' tr,
+    list_session mss 2 v (length A + length B + 3) A B (initial_message om_ops A) true [] = Some (A', B', tr) /\
+    (length tr <= length A + length B + 2)%nat /\
+    (forall x, In x A' <-> In x (join A B)) /\ (forall x, In x B' <-> In x (join A B)) /\
+    ssorted A' /\ ssorted B'.
+Proof. exact list_session_total. Qed.
+
 (** the fact about the split that convergence rests on: the sub-ranges cover the range *)
 Theorem C01_split_covers_range : forall k, 2 <= k -> forall S x y, ssorted S -> (2 <= length (rng S x y))%nat ->
   forall z, range_contains x y z = true ->
@@ -71,5 +89,6 @@ Example C01_session_example :
 Proof. vm_compute. repeat split; auto. Qed.
 
 Print Assumptions C01_session_reaches_join.
+Print Assumptions C01_session_total.
 Print Assumptions C01_split_covers_range.
 Print Assumptions C01_session_example.
